@@ -3,6 +3,7 @@ package work
 import (
 	"fmt"
 	"reflect"
+	"sync"
 
 	"github.com/philpearl/plenc"
 	"github.com/unravelin/null"
@@ -186,4 +187,50 @@ func mutateInPlace(v reflect.Value, vg *gen.VG, depth int) {
 			}
 		}
 	}
+}
+
+// concurrentMarshals has g goroutines marshal the values on p at the same time, each starting at
+// another value, by pointer and (byValue) by value, into nil and into a buffer the goroutine
+// re-uses. Every result must be what the same call returned alone (refs). Returns the first
+// difference.
+func concurrentMarshals(p *plenc.Plenc, vals []reflect.Value, refs [][]byte, same func(i int, a, b []byte) bool, g, rounds int, byValue bool) string {
+	var mu sync.Mutex
+	var fail string
+	var wg sync.WaitGroup
+	start := make(chan struct{})
+	for w := 0; w < g; w++ {
+		wg.Add(1)
+		go func(w int) {
+			defer wg.Done()
+			var reuse []byte
+			<-start
+			for k := 0; k < rounds*len(vals); k++ {
+				i := (k + w*(len(vals)/g+1)) % len(vals)
+				var arg any = ptrTo(vals[i])
+				how := "by pointer"
+				if byValue && k%2 == 1 {
+					arg, how = vals[i].Interface(), "by value"
+				}
+				buf := []byte(nil)
+				if k%3 == 2 {
+					buf = reuse[:0]
+				}
+				out, err, pn := marshal(p, buf, arg)
+				if err != nil || pn != "" || !same(i, out, refs[i]) {
+					mu.Lock()
+					if fail == "" {
+						fail = fmt.Sprintf("goroutine %d of %d, Marshal %s of value %s: got %s (%v %s), alone the call returns %s", w, g, how, model.Show(vals[i]), hexHead(out), err, trunc1(pn), hexHead(refs[i]))
+					}
+					mu.Unlock()
+					return
+				}
+				if buf != nil || reuse == nil {
+					reuse = out
+				}
+			}
+		}(w)
+	}
+	close(start)
+	wg.Wait()
+	return fail
 }
